@@ -14,6 +14,13 @@ pub assume_specification[::std::time::Duration::from_secs](s: u64) -> (r: Durati
     ensures dur_ns(r) == s as nat * 1_000_000_000;
 pub assume_specification[::std::time::Duration::saturating_sub](a: Duration, b: Duration) -> (r: Duration)
     ensures dur_ns(r) == (if dur_ns(a) >= dur_ns(b) { dur_ns(a) - dur_ns(b) } else { 0 });
+pub assume_specification[::std::time::Duration::saturating_add](a: Duration, b: Duration) -> (r: Duration)
+    ensures dur_ns(r) >= dur_ns(a), dur_ns(r) >= dur_ns(b), dur_ns(r) <= dur_ns(a) + dur_ns(b),
+        dur_ns(a) + dur_ns(b) <= 18446744073709551615u64 as nat * 1_000_000_000 ==> dur_ns(r) == dur_ns(a) + dur_ns(b);
+pub assume_specification[::std::time::Duration::checked_sub](a: Duration, b: Duration) -> (r: Option<Duration>)
+    ensures match r { Some(d) => dur_ns(a) >= dur_ns(b) && dur_ns(d) == dur_ns(a) - dur_ns(b), None => dur_ns(a) < dur_ns(b) };
+pub assume_specification[::std::time::Duration::from_millis](ms: u64) -> (r: Duration)
+    ensures dur_ns(r) == ms as nat * 1_000_000;
 pub assume_specification[::std::time::Duration::is_zero](a: &Duration) -> (r: bool)
     ensures r == (dur_ns(*a) == 0);
 pub assume_specification[::std::time::Duration::as_nanos](a: &Duration) -> (r: u128)
